@@ -8,6 +8,7 @@ from vlib import pgen, ref
 from vlib.harness import SubCheck, must, must_raise, require
 
 PROPERTY_ID = "C09"
+TECHNIQUE = 'exhaustive enumeration of padded Pauli strings + property-based testing (Hypothesis) against Kronecker-product definitions; matrix round trips'
 RULE = (
     "Exhaustive: all Pauli strings on <= 3 qubits (incl. identities) x register widths own..own+2 "
     "with a complex coefficient. Random: terms and sums on <= 5 qubits with gaps, constants, complex "
